@@ -180,10 +180,17 @@ public:
             if(it != ctx->multAddr.end() && (it->second.level != ctx->height - 1 || it->second.c != coordOf(inLeafIndex)))
                 ctx->error("P2M: multipole object does not belong to the leaf cell named by the header");
         }
+        // origin convention (refmodel.hpp, Expect::origin): the expansion origin of cell (level, c) is (c - 1) * width(level), i.e. one cell
+        // width below its lower corner. It depends on the level, so that EVERY translation (also towards child 0) moves the origin and
+        // a wrong level argument changes the value. A particle of leaf S sits one leaf width above the origin of S.
+        rm::Coord one{{0,0,0,0}}; for(int d = 0 ; d < Dim ; ++d) one[d] = 1;
+        uint64_t f1[gf::NEVAL]; shiftFactors(one, 1, f1);
+        gf::Val sum = gf::zero();
         for(long i = 0 ; i < inNbParticles ; ++i){
-            for(int k = 0 ; k < gf::NEVAL ; ++k) inOutLeaf.v[k] = gf::add(inOutLeaf.v[k], ctx->P.weight(k, particlesIndexes[i], ctx->tagSrc));
-            inOutLeaf.cnt += 1;
+            for(int k = 0 ; k < gf::NEVAL ; ++k) sum.v[k] = gf::add(sum.v[k], ctx->P.weight(k, particlesIndexes[i], ctx->tagSrc));
+            sum.cnt += 1;
         }
+        gf::addShifted(inOutLeaf, sum, f1);
         if(ctx->logging) ctx->log.push_back(LogEntry{OpP2M, long(ctx->height - 1), coordOf(inLeafIndex), coordOf(inLeafIndex), 0});
     }
 
@@ -225,7 +232,8 @@ public:
                     if(it->second.level != el || it->second.c != ec) ctx->error("M2M: child object is not the child designated by (parent, position code)");
                 }
             }
-            uint64_t f[gf::NEVAL]; shiftFactors(off, cw, f);
+            rm::Coord offp{{0,0,0,0}}; for(int d = 0 ; d < Dim ; ++d) offp[d] = off[d] + 1;   // child origin - parent origin = (code + 1) * child width
+            uint64_t f[gf::NEVAL]; shiftFactors(offp, cw, f);
             gf::addShifted(inOutUpperCell, child, f);
             if(ctx->logging){
                 rm::Coord cc{{0,0,0,0}}; for(int d = 0 ; d < Dim ; ++d) cc[d] = 2 * pc[d] + off[d];
@@ -336,7 +344,7 @@ public:
                     if(it->second.level != el || it->second.c != ec) ctx->error("L2L: child object is not the child designated by (parent, position code)");
                 }
             }
-            rm::Coord neg{{0,0,0,0}}; for(int d = 0 ; d < Dim ; ++d) neg[d] = -off[d];
+            rm::Coord neg{{0,0,0,0}}; for(int d = 0 ; d < Dim ; ++d) neg[d] = -(off[d] + 1);          // parent origin - child origin
             uint64_t f[gf::NEVAL]; shiftFactors(neg, cw, f);
             gf::addShifted(child, inUpperCell, f);
             if(ctx->logging){
@@ -358,7 +366,10 @@ public:
             if(it != ctx->localAddr.end() && (it->second.level != ctx->height - 1 || it->second.c != coordOf(inLeafIndex)))
                 ctx->error("L2P: local object does not belong to the leaf cell named by the header");
         }
-        for(long i = 0 ; i < inNbParticles ; ++i) addResult(inOutParticlesRhs, i, particlesIndexes[i], ctx->tagTgt ? 1 : 0, inLeaf);
+        rm::Coord mone{{0,0,0,0}}; for(int d = 0 ; d < Dim ; ++d) mone[d] = -1;    // leaf origin - particle (see P2M)
+        uint64_t fm[gf::NEVAL]; shiftFactors(mone, 1, fm);
+        gf::Val atParticle = gf::zero(); gf::addShifted(atParticle, inLeaf, fm);
+        for(long i = 0 ; i < inNbParticles ; ++i) addResult(inOutParticlesRhs, i, particlesIndexes[i], ctx->tagTgt ? 1 : 0, atParticle);
         if(ctx->logging) ctx->log.push_back(LogEntry{OpL2P, long(ctx->height - 1), coordOf(inLeafIndex), coordOf(inLeafIndex), 0});
     }
 
